@@ -164,6 +164,15 @@ public:
     }
     if (r.chance(1, 3)) { Json f = Json::object(); f["op"] = "file"; f["path"] = r.chance(1, 2) ? "a.out" : "a.bin"; f["hex"] = sim::toHex(junk()); f["role"] = "bystander"; ops.push(f); }
     if (r.chance(1, 4)) { Json f = Json::object(); f["op"] = "file"; f["path"] = "notes.txt"; f["hex"] = sim::toHex(junk()); f["role"] = "bystander"; ops.push(f); }
+    // Input files for the program's file streams (generated programs read streams 256, 512 and 1280).
+    if ((tool == "xrun" || tool == "hexsim") && r.chance(1, 2)) {
+      static const int idx[] = {1, 2, 5};
+      for (int q = 0; q < 3; q++) {
+        if (r.chance(1, 6)) continue;
+        std::string d; size_t n = (size_t)r.below(6); for (size_t z = 0; z < n; z++) d.push_back((char)r.below(256));
+        Json f = Json::object(); f["op"] = "file"; f["path"] = "simin" + std::to_string(idx[q]); f["hex"] = sim::toHex(d); f["role"] = "simin"; ops.push(f);
+      }
+    }
     // The invocation.
     Json inv = Json::object();
     inv["op"] = "tool"; inv["name"] = tool;
@@ -182,11 +191,25 @@ public:
     } else if (tool == "xrun") {
       if (r.chance(1, 6)) parts.push_back("-t");
       parts.push_back(srcName);
-      if (r.chance(1, 5)) { parts.push_back("--max-cycles"); parts.push_back(r.chance(2, 3) ? "@REL" + std::to_string((int)r.range(-2, 2)) : std::to_string(1 + r.below(2000))); }
+      if (r.chance(1, 5)) {
+        auto limit = [&]() -> std::string {
+          if (r.chance(1, 8)) { static const char *edge[] = {"0", "1", "4294967295", "4294967296", "18446744073709551615", "65536"}; return edge[r.below(6)]; }
+          return r.chance(2, 3) ? "@REL" + std::to_string((int)r.range(-2, 2)) : std::to_string(1 + r.below(2000));
+        };
+        if (r.chance(1, 10)) { parts.push_back("--max-cycles"); parts.push_back(limit()); }     // given twice: the last one counts
+        parts.push_back("--max-cycles"); parts.push_back(limit());
+      }
     } else {   // hexsim: first build the binary with the matching tool (a chained invocation)
       inv["build_with"] = wantX ? "xcmp" : "hexasm";
       if (r.chance(1, 6)) parts.push_back("-t");
-      if (r.chance(1, 4)) { parts.push_back("--max-cycles"); parts.push_back(r.chance(2, 3) ? "@REL" + std::to_string((int)r.range(-2, 2)) : std::to_string(1 + r.below(2000))); }
+      if (r.chance(1, 4)) {
+        auto limit = [&]() -> std::string {
+          if (r.chance(1, 8)) { static const char *edge[] = {"0", "1", "4294967295", "4294967296", "18446744073709551615", "65536"}; return edge[r.below(6)]; }
+          return r.chance(2, 3) ? "@REL" + std::to_string((int)r.range(-2, 2)) : std::to_string(1 + r.below(2000));
+        };
+        if (r.chance(1, 10)) { parts.push_back("--max-cycles"); parts.push_back(limit()); }
+        parts.push_back("--max-cycles"); parts.push_back(limit());
+      }
       parts.push_back("prog.bin");
     }
     // Usage errors: the command line itself is wrong (the statement's "on any error").
@@ -207,7 +230,8 @@ public:
     inv["argv"] = argv;
     std::string in;
     if (!inputs.empty() && r.chance(3, 4)) in = inputs[r.below(inputs.size())];
-    else { size_t n = (size_t)r.below(6); for (size_t q = 0; q < n; q++) in.push_back((char)(r.chance(1, 4) ? r.below(256) : 1 + r.below(20))); }
+    else { size_t n = (size_t)r.below(6); if (r.chance(1, 40)) n = (r.chance(1, 2) ? 4094 : 8190) + (size_t)r.below(5);     // around a 4096-byte buffer boundary
+           for (size_t q = 0; q < n; q++) in.push_back((char)(n > 100 ? 32 + r.below(95) : r.chance(1, 4) ? r.below(256) : 1 + r.below(20))); }
     inv["stdin_hex"] = sim::toHex(in);
     if (r.chance(1, 12)) { inv["inject_open_failure"] = true; }   // recorded, never judged
     if ((tool == "xrun" || tool == "hexsim") && r.chance(1, 12)) inv["stdin_closed"] = true;   // started with descriptor 0 closed
@@ -404,6 +428,7 @@ public:
 
   // hexref's verdict on a binary file + input.
   bool isaUsedFiles = false;      // did the last isaOutcome() touch a file stream
+  std::string siminNow[8]; bool siminPresentNow[8] = {};   // simin<n> files staged by the plan (the ISA model reads the same bytes)
   bool closedNow = false;         // invocations run with standard input closed (descriptor-0 model of sim::fs)
   uint64_t cycleBaseNow = 0;      // hexsim/xrun invocations start with the cycle counter here (hook H1)
   bool isaOutcome(const std::string &file, const std::string &input, uint64_t budget, uint32_t &exitValue, std::string &out, size_t &consumed, uint64_t *stepsOut = nullptr) {
@@ -413,6 +438,7 @@ public:
     std::string image = 4 + bytes <= file.size() ? file.substr(4, bytes) : file.substr(4);
     hexref::Machine &m = *ref;
     hexref::Io rio; rio.input = input; rio.keepHistory = false;
+    for (int q = 0; q < 8; q++) if (siminPresentNow[q]) { rio.fileExists[q] = true; rio.fileIn[q] = siminNow[q]; }
     for (uint32_t a : dirty) if (a < W) m.mem[a] = 0;
     dirty.clear();
     m.reset(); m.io = &rio;
@@ -455,6 +481,7 @@ public:
     sim::fs::reset();
     closedNow = false;
     cycleBaseNow = 0;
+    for (int q = 0; q < 8; q++) { siminPresentNow[q] = false; siminNow[q].clear(); }
     std::string nearCopyPath; uint64_t nearCopy = 0;
     std::string srcName, text, origin; bool haveSource = false;
     const Json *invp = nullptr;
@@ -466,6 +493,7 @@ public:
         if (op.getStr("role") == "source") { srcName = op.getStr("path"); text = content; origin = op.getStr("origin"); haveSource = true; }
         else o.count("fault.prefile_" + op.getStr("role", "other"));
         if (op.has("near_copy")) { nearCopyPath = op.getStr("path"); nearCopy = op.getU64("near_copy"); }
+        if (op.getStr("role") == "simin") { std::string pth = op.getStr("path"); if (pth.size() == 6 && pth.compare(0, 5, "simin") == 0 && pth[5] >= '0' && pth[5] <= '7') { siminPresentNow[pth[5] - '0'] = true; siminNow[pth[5] - '0'] = content; } }
       } else if (k == "tool") invp = &op;
     }
     if (!invp) { o.note = "skipped:no_invocation"; return; }
@@ -660,8 +688,9 @@ public:
   }
 
   static uint64_t limitOf(const std::vector<std::string> &args) {
-    for (size_t k = 0; k + 1 < args.size(); k++) if (args[k] == "--max-cycles") return std::strtoull(args[k + 1].c_str(), nullptr, 10);
-    return 0;
+    uint64_t v = 0;       // the option may be repeated: the last one counts
+    for (size_t k = 0; k + 1 < args.size(); k++) if (args[k] == "--max-cycles") v = std::strtoull(args[k + 1].c_str(), nullptr, 10);
+    return v;
   }
   // "--max-cycles @REL<r>" means: r instructions off the point where the limit just lets the EXIT in.
   static void resolveRelativeLimit(std::vector<std::string> &args, uint64_t steps) {
